@@ -1,121 +1,356 @@
-// Copyright 2013 The Go Authors. All rights reserved.
-// Use of this source code is governed by a BSD-style
-// license that can be found in the LICENSE file.
-
 package interp
 
-// Custom hashtable atop map.
-// For use when the key's equivalence relation is not consistent with ==.
-
-// The Go specification doesn't address the atomicity of map operations.
-// The FAQ states that an implementation is permitted to crash on
-// concurrent map access.
-
 import (
+	"fmt"
 	"go/types"
+
+	"gosym/sym"
 )
 
-type hashable interface {
-	hash(t types.Type) int
-	eq(t types.Type, x interface{}) bool
+// omap is the engine's map: an insertion-ordered association list with an index for
+// concrete scalar keys. Keys may be symbolic; the invariant on every path is that
+// the live keys are pairwise distinct under the path condition.
+type omap struct {
+	keyT, elemT types.Type
+	ents        []ment
+	idx         map[interface{}]int // concrete comparable keys -> position in ents
+	live        int
+	nsym        int // live entries with symbolic keys
 }
 
-type entry struct {
-	key   hashable
-	value value
-	next  *entry
+type ment struct {
+	k    value
+	vp   *value // value cell (stable address: updates go through setCell)
+	dead bool
 }
 
-// A hashtable atop the built-in map.  Since each bucket contains
-// exactly one hash value, there's no need to perform hash-equality
-// tests when walking the linked list.  Rehashing is done by the
-// underlying map.
-type hashmap struct {
-	keyType types.Type
-	table   map[int]*entry
-	length  int // number of entries in map
+func newOmap(keyT, elemT types.Type) *omap {
+	return &omap{keyT: keyT, elemT: elemT, idx: map[interface{}]int{}}
 }
 
-// makeMap returns an empty initialized map of key type kt,
-// preallocating space for reserve elements.
-func makeMap(kt types.Type, reserve int64) value {
-	if usesBuiltinMap(kt) {
-		return make(map[value]value, reserve)
+// indexable reports whether k can be used as a Go map key directly.
+func indexable(k value) bool {
+	switch k.(type) {
+	case bool, int, int8, int16, int32, int64, uint, uint8, uint16, uint32, uint64, uintptr,
+		float32, float64, complex64, complex128, string, *value, *channel, *omap:
+		return true
 	}
-	return &hashmap{keyType: kt, table: make(map[int]*entry, reserve)}
+	return false
 }
 
-// delete removes the association for key k, if any.
-func (m *hashmap) delete(k hashable) {
-	if m != nil {
-		hash := k.hash(m.keyType)
-		head := m.table[hash]
-		if head != nil {
-			if k.eq(m.keyType, head.key) {
-				m.table[hash] = head.next
-				m.length--
-				return
+func (m *omap) len() int {
+	if m == nil {
+		return 0
+	}
+	return m.live
+}
+
+// find returns candidates for key: an exact (concretely equal) position or -1, and the list of
+// (condition, position) pairs for entries whose equality with key is symbolic.
+type mcand struct {
+	cond *sym.Term
+	pos  int
+}
+
+func (i *interpreter) mapFind(m *omap, key value) (exact int, cands []mcand) {
+	exact = -1
+	if m == nil {
+		return
+	}
+	keySym := isSymDeep(key)
+	if !keySym && m.nsym == 0 && indexable(key) {
+		if p, ok := m.idx[key]; ok {
+			exact = p
+		}
+		return
+	}
+	if !keySym && indexable(key) {
+		if p, ok := m.idx[key]; ok {
+			exact = p
+			return // distinctness invariant: no symbolic key can equal it
+		}
+		// only symbolic keys can match
+		for p := range m.ents {
+			e := &m.ents[p]
+			if e.dead || !isSymDeep(e.k) {
+				continue
 			}
-			prev := head
-			for e := head.next; e != nil; e = e.next {
-				if k.eq(m.keyType, e.key) {
-					prev.next = e.next
-					m.length--
+			switch c := i.equals(m.keyT, key, e.k).(type) {
+			case bool:
+				if c {
+					exact = p
 					return
 				}
-				prev = e
+			case *sym.Term:
+				cands = append(cands, mcand{c, p})
 			}
 		}
+		return
 	}
-}
-
-// lookup returns the value associated with key k, if present, or
-// value(nil) otherwise.
-func (m *hashmap) lookup(k hashable) value {
-	if m != nil {
-		hash := k.hash(m.keyType)
-		for e := m.table[hash]; e != nil; e = e.next {
-			if k.eq(m.keyType, e.key) {
-				return e.value
+	for p := range m.ents {
+		e := &m.ents[p]
+		if e.dead {
+			continue
+		}
+		switch c := i.equals(m.keyT, key, e.k).(type) {
+		case bool:
+			if c {
+				exact = p
+				return
 			}
+		case *sym.Term:
+			cands = append(cands, mcand{c, p})
 		}
 	}
-	return nil
+	return
 }
 
-// insert updates the map to associate key k with value v.  If there
-// was already an association for an eq() (though not necessarily ==)
-// k, the previous key remains in the map and its associated value is
-// updated.
-func (m *hashmap) insert(k hashable, v value) {
-	hash := k.hash(m.keyType)
-	head := m.table[hash]
-	for e := head; e != nil; e = e.next {
-		if k.eq(m.keyType, e.key) {
-			e.value = v
+func isSymDeep(v value) bool {
+	switch x := v.(type) {
+	case *sym.Term, *FV, sstr:
+		return true
+	case structure:
+		for _, e := range x {
+			if isSymDeep(e) {
+				return true
+			}
+		}
+	case array:
+		for _, e := range x {
+			if isSymDeep(e) {
+				return true
+			}
+		}
+	case iface:
+		return isSymDeep(x.v)
+	}
+	return false
+}
+
+// mapLookup returns (value, ok). ok is bool or *sym.Term.
+func (i *interpreter) mapLookup(m *omap, key value, elemT types.Type) (value, value) {
+	exact, cands := i.mapFind(m, key)
+	if len(cands) == 0 {
+		if exact >= 0 {
+			i.raceRead(m.ents[exact].vp)
+			return copyVal(*m.ents[exact].vp), true
+		}
+		return zero(elemT), false
+	}
+	// try an ite chain
+	var res value
+	var ok value
+	if exact >= 0 {
+		res, ok = copyVal(*m.ents[exact].vp), true
+	} else {
+		res, ok = zero(elemT), false
+	}
+	merged := true
+	for k := len(cands) - 1; k >= 0; k-- {
+		cd := cands[k]
+		r, good := i.iteVal(cd.cond, copyVal(*m.ents[cd.pos].vp), res)
+		if !good {
+			merged = false
+			break
+		}
+		res = r
+		ok = i.or(cd.cond, ok)
+	}
+	if merged {
+		return res, ok
+	}
+	// fall back to path decisions
+	for _, cd := range cands {
+		if i.decide(cd.cond) {
+			return copyVal(*m.ents[cd.pos].vp), true
+		}
+	}
+	if exact >= 0 {
+		return copyVal(*m.ents[exact].vp), true
+	}
+	return zero(elemT), false
+}
+
+func (i *interpreter) mapUpdate(m *omap, key, v value) {
+	if m == nil {
+		panic(targetPanic{i.rtErr("assignment to entry in nil map")})
+	}
+	exact, cands := i.mapFind(m, key)
+	for _, cd := range cands {
+		if i.decide(cd.cond) {
+			i.mapSetAt(m, cd.pos, v)
 			return
 		}
 	}
-	m.table[hash] = &entry{
-		key:   k,
-		value: v,
-		next:  head,
+	if exact >= 0 {
+		i.mapSetAt(m, exact, v)
+		return
 	}
-	m.length++
+	i.mapInsert(m, key, v)
 }
 
-// len returns the number of key/value associations in the map.
-func (m *hashmap) len() int {
-	if m != nil {
-		return m.length
-	}
-	return 0
+func (i *interpreter) mapSetAt(m *omap, pos int, v value) {
+	i.setCell(m.ents[pos].vp, copyVal(v))
 }
 
-// entries returns a rangeable map of entries.
-func (m *hashmap) entries() map[int]*entry {
-	if m != nil {
-		return m.table
+func (i *interpreter) mapInsert(m *omap, key, v value) {
+	if i.specDepth > 0 {
+		i.mergeAbort("map insertion inside a merged region")
 	}
-	return nil
+	pos := len(m.ents)
+	cell := new(value)
+	*cell = copyVal(v)
+	m.ents = append(m.ents, ment{k: copyVal(key), vp: cell})
+	m.live++
+	sym := isSymDeep(key)
+	if sym {
+		m.nsym++
+	} else if indexable(key) {
+		m.idx[key] = pos
+	}
+	if i.trailOn {
+		i.trail = append(i.trail, trailEnt{undo: func() {
+			m.ents = m.ents[:pos]
+			m.live--
+			if sym {
+				m.nsym--
+			} else if indexable(key) {
+				delete(m.idx, key)
+			}
+		}})
+	}
+}
+
+func (i *interpreter) mapDelete(m *omap, key value) {
+	if m == nil {
+		return
+	}
+	exact, cands := i.mapFind(m, key)
+	pos := -1
+	for _, cd := range cands {
+		if i.decide(cd.cond) {
+			pos = cd.pos
+			break
+		}
+	}
+	if pos < 0 {
+		pos = exact
+	}
+	if pos < 0 {
+		return
+	}
+	if i.specDepth > 0 {
+		i.mergeAbort("map deletion inside a merged region")
+	}
+	e := &m.ents[pos]
+	k := e.k
+	sym := isSymDeep(k)
+	e.dead = true
+	m.live--
+	if sym {
+		m.nsym--
+	} else if indexable(k) {
+		delete(m.idx, k)
+	}
+	if i.trailOn {
+		i.trail = append(i.trail, trailEnt{undo: func() {
+			m.ents[pos].dead = false
+			m.live++
+			if sym {
+				m.nsym++
+			} else if indexable(k) {
+				m.idx[k] = pos
+			}
+		}})
+	}
+}
+
+// mapIter iterates in an order chosen by the interpreter's map-order policy.
+type mapIter struct {
+	i     *interpreter
+	m     *omap
+	order []int // positions still to visit (computed at creation)
+	k     int
+}
+
+func (i *interpreter) newMapIter(m *omap) *mapIter {
+	it := &mapIter{i: i, m: m}
+	if m == nil {
+		return it
+	}
+	for p := range m.ents {
+		if !m.ents[p].dead {
+			it.order = append(it.order, p)
+		}
+	}
+	if i.mapOrderExplore && len(it.order) >= 2 {
+		it.order = i.chooseOrder(it.order)
+	}
+	return it
+}
+
+func (it *mapIter) next() tuple {
+	for it.k < len(it.order) {
+		p := it.order[it.k]
+		it.k++
+		if p < len(it.m.ents) && !it.m.ents[p].dead {
+			e := it.m.ents[p]
+			return tuple{true, copyVal(e.k), copyVal(*e.vp)}
+		}
+	}
+	// entries appended during iteration are visited last (permitted by the spec)
+	if it.m != nil {
+		seen := map[int]bool{}
+		for _, p := range it.order {
+			seen[p] = true
+		}
+		for p := range it.m.ents {
+			if !seen[p] && !it.m.ents[p].dead {
+				it.order = append(it.order, p)
+				it.k = len(it.order)
+				e := it.m.ents[p]
+				return tuple{true, copyVal(e.k), copyVal(*e.vp)}
+			}
+		}
+	}
+	return tuple{false, nil, nil}
+}
+
+// chooseOrder picks an iteration order as path decisions: all permutations for up to 4
+// entries, rotations of insertion order and its reverse above that.
+func (i *interpreter) chooseOrder(pos []int) []int {
+	n := len(pos)
+	if n <= 4 {
+		rest := append([]int{}, pos...)
+		var out []int
+		for len(rest) > 1 {
+			k := i.choose(len(rest), "maporder")
+			out = append(out, rest[k])
+			rest = append(rest[:k:k], rest[k+1:]...)
+		}
+		return append(out, rest[0])
+	}
+	k := i.choose(2*n, "maporder")
+	out := make([]int, n)
+	if k < n {
+		for j := 0; j < n; j++ {
+			out[j] = pos[(j+k)%n]
+		}
+	} else {
+		k -= n
+		for j := 0; j < n; j++ {
+			out[j] = pos[((n-1-j)+k)%n]
+		}
+	}
+	return out
+}
+
+func (i *interpreter) rangeIter(x value, t types.Type) iter {
+	switch x := x.(type) {
+	case *omap:
+		return i.newMapIter(x)
+	case string, sstr:
+		return &stringIter{i: i, b: strBytes(x)}
+	}
+	panic(fmt.Sprintf("cannot range over %T", x))
 }
